@@ -45,6 +45,8 @@ func main() {
 		h.GenConvMix(rng, n, emit)
 	case "reply":
 		h.GenReply(rng, thorough, emit)
+	case "tls":
+		h.GenTLS(rng, thorough, emit)
 	case "c02":
 		h.GenC02(rng, thorough, emit)
 	case "c03":
